@@ -7,6 +7,7 @@ EXPLANATION = (
     "the declaration list is left only at end of input (no cap), simple/object/table map to their declaration types in both parsers, names are identifiers; every loop of the parser is classified as terminating and the "
     "token loops are shown (abstract run with every token = \"\") to exit at end of input; the input is sliced only at cursor positions that "
     "are char boundaries; every type token the generator emits is an arm of the parser.")
+EXPLANATION += " Since the rules were generalised: bed_autosql is evaluated for every number of extra columns e = 0..N+3 (3 + e distinct declarations each time) and the header's field count computation is evaluated for an unparsable schema, no declaration and several declarations."
 UNDECIDED = "that the parser accepts every grammatical schema (no grammar is analysed); memory growth other than in the token loops."
 ASSUMPTIONS = ["str::char_indices yields char boundaries", "CString::as_bytes_with_nul appends one NUL"]
 OBLIGATIONS = [K.GEN_COUNT, K.SCHEMA_FLOW, K.AUTOSQL_LOOPS, K.SLICES, K.GEN_TOKENS, K.WRITER_LAYOUT[3], K.ITEMCOUNT_R, K.LOWERCASE]
